@@ -1,7 +1,7 @@
 """Helpers shared by the transform properties (C08–C10, C15, C16, C19)."""
 import sys
 
-from ..gen import canon, dt_us, td_us
+from ..gen import canon, dt_us, exact, td_us
 
 
 def iv(e):
@@ -12,7 +12,7 @@ def iv(e):
 
 def snap(events):
     """Exact, order-preserving snapshot of an event list."""
-    return [(e.id, dt_us(e.timestamp), td_us(e.duration), canon(e.data)) for e in events]
+    return [(e.id, dt_us(e.timestamp), td_us(e.duration), exact(e.data)) for e in events]
 
 
 def is_event_list(x):
